@@ -89,10 +89,13 @@ def bidx (s idx : List Nat) : List Nat :=
 
 def padL (n : Nat) (s : List Nat) : List Nat := List.replicate (n - s.length) 1 ++ s
 
+/-- length of a broadcast axis -/
+def bmax (x y : Nat) : Nat := if x = 1 then y else x
+
 /-- broadcast shape -/
 def bshape (a b : List Nat) : List Nat :=
   let n := if a.length < b.length then b.length else a.length
-  List.zipWith (fun x y => if x = 1 then y else x) (padL n a) (padL n b)
+  List.zipWith bmax (padL n a) (padL n b)
 
 def sumTo [Num α] : Nat → (Nat → α) → α
   | 0, _ => Num.ofNat 0
